@@ -59,7 +59,7 @@ func init() {
 			"numbers in bodies are integers |n| ≤ 10^6 and n+0.5 (exact in float64); number texts in forms are decimal [+-]digits or [+-]digits.5 without leading zeros, or non-numeric",
 			"encoding/json, net/url.ParseQuery, mime, mime/multipart, yaml3 and encoding/csv are trusted: what they make of the body text is an input of the model; YAML texts stay inside the JSON data model (no timestamps, no non-string keys)",
 			"array properties of form bodies carry items; per-property styles only form/spaceDelimited/pipeDelimited on arrays; object-typed properties inside composition members of a form schema, one name declared as integer and as number, the zip decoder and form decoders nested inside multipart parts are outside the model and not generated",
-			"defaults below `not` (the partial mutations of the failing visit stay in the value) and, under a media type without body encoder, defaults at nesting depth ≥ 2 that fire are outside the model and not generated",
+			"defaults below `not` (the partial mutations of the failing visit stay in the value) are outside the model and not generated",
 			"where a default decides the verdict (caseNeutral false) the oracle is the two-phase reading (completed value) for composition-free schemas; for schemas with compositions only implementation vs model is compared",
 		},
 	})
@@ -195,6 +195,16 @@ func goToJ(v any) any {
 			l = append(l, []any{k, goToJ(x[k])})
 		}
 		return map[string]any{"o": l}
+	case map[any]any: // YAML: a mapping all of whose keys are strings
+		m := map[string]any{}
+		for k, e := range x {
+			ks, ok := k.(string)
+			if !ok {
+				return map[string]any{"x": "non-string key"}
+			}
+			m[ks] = e
+		}
+		return goToJ(m)
 	}
 	return map[string]any{"x": fmt.Sprintf("%T", v)}
 }
@@ -317,7 +327,40 @@ func yamlView(text string) any {
 	if err := yaml3.NewDecoder(strings.NewReader(text)).Decode(&v); err != nil {
 		return nil
 	}
+	// since repair ca97fab the decoder reports a document outside the JSON data model (a mapping key that is not a
+	// string, a number that is not finite) as a format error: for the model that is "no value", like a syntax error
+	if c06OutsideJSON(v) {
+		return nil
+	}
 	return map[string]any{"v": goToJ(v)}
+}
+
+// c06OutsideJSON: written independently of the decoder's own check — any map keyed by something else than strings
+// (yaml3 yields map[any]any only then… or always for such a mapping), any NaN / ±Inf.
+func c06OutsideJSON(v any) bool {
+	switch x := v.(type) {
+	case map[any]any:
+		for k, e := range x {
+			if _, ok := k.(string); !ok || c06OutsideJSON(e) {
+				return true
+			}
+		}
+	case map[string]any:
+		for _, e := range x {
+			if c06OutsideJSON(e) {
+				return true
+			}
+		}
+	case []any:
+		for _, e := range x {
+			if c06OutsideJSON(e) {
+				return true
+			}
+		}
+	case float64:
+		return math.IsNaN(x) || math.IsInf(x, 0)
+	}
+	return false
 }
 
 // csvView: the records encoding/csv reads from the text; nil = error.
@@ -924,7 +967,7 @@ func genC06(ctx *hx.Ctx, emit func(hx.Case)) {
 	// (C) urlencoded
 	fct := "application/x-www-form-urlencoded"
 	pTys := []any{"string", "integer", "number", "boolean", "array:integer", "array:string", nil}
-	texts := []string{"", "1", "x", "1.5", "true", "-3", "1,2"}
+	texts := []string{"", "1", "x", "1.5", "true", "-3", "1,2", "NaN", "-Inf"}
 	mkProp := func(t any, nullable bool) map[string]any {
 		p := sch("nullable", nullable)
 		if ts, ok := t.(string); ok {
@@ -1235,7 +1278,9 @@ func genYamlCsv(ctx *hx.Ctx, emit func(hx.Case)) {
 		[]any{"c", sch("ty", "array", "items", sch("ty", "number"))}, []any{"d", sch("ty", "integer", "dflt", jI(1))}}, "required", []any{"a"})
 	schemas := []any{objS, sch("ty", "string", "minLen", 2), sch("ty", "integer"), sch("ty", "array", "items", sch("ty", "integer")), sch("nullable", true), nil}
 	yamls := []string{"a: 1\n", "a: 1\nb: x\n", "a: 7\n", "a: 1\nc: [1, 2.5]\n", "a: 1\nc:\n  - 1\n  - x\n", `{"a": 1}`, `{"a":1,"zz":{"k":[true,null]}}`,
-		"a: 1\n---\na: x\n", "a: [1", "\tbad", "a: 1\na: 2\n", "hello", "12", "- 1\n- 2\n", "~", "a: null\n", "a: 1.0\n", "a: '1'\n", "a: -3\nd: 4\n", "# only a comment\n", " "}
+		"a: 1\n---\na: x\n", "a: [1", "\tbad", "a: 1\na: 2\n", "hello", "12", "- 1\n- 2\n", "~", "a: null\n", "a: 1.0\n", "a: '1'\n", "a: -3\nd: 4\n", "# only a comment\n", " ",
+		// outside the JSON data model: a format error since repair ca97fab
+		"1: x\n", "a: 1\n2: y\n", "? [k]\n: v\n", "a: .nan\n", "a: .inf\n", "c: [1, -.inf]\n", "~: 1\n", "a: {1: 2}\n", "true: 1\n", "zz: {k: .NaN}\n"}
 	for _, ct := range []string{"application/yaml", "application/x-yaml", "application/yaml; charset=utf-8"} {
 		for _, key := range []string{"application/yaml", "application/x-yaml", "*/*"} {
 			for _, s := range schemas {
@@ -1446,7 +1491,8 @@ func genDefaults(ctx *hx.Ctx, emit func(hx.Case)) {
 			}
 		}
 	}
-	// (E4) media types without a body encoder: urlencoded and multipart bodies against flat schemas with defaults
+	// (E4) media types without a body encoder (since repair 4a27f6e the body is forwarded as received): urlencoded and
+	// multipart bodies against flat schemas with defaults
 	{
 		fct := "application/x-www-form-urlencoded"
 		bd := "XbX"
@@ -1952,7 +1998,7 @@ func randCase0(r *hx.Rng) hx.Case {
 			}
 			txt := func(t string) string {
 				if r.Chance(12) {
-					return hx.Pick(r, []string{"", "x", "1x", "abc", "1.5", "true", "7"})
+					return hx.Pick(r, []string{"", "x", "1x", "abc", "1.5", "true", "7", "NaN", "Inf", "+inf", "infinity", "nan"})
 				}
 				switch t {
 				case "integer":
